@@ -60,7 +60,13 @@ def check(chk: Check) -> None:
     chk.require(texts is not None and need <= texts, R1, 't_%s alternatives' % NL, where,
                 'matches exactly %s' % sorted(texts) if texts is not None and need <= texts else
                 'the separator rule matches %s; CRLF, LF and `;` must all be separators' % (sorted(texts) if texts else 'an unbounded language'))
-    depth = LF.depth_attr(F, lm)
+    try:
+        depth = LF.depth_attr(F, lm)
+    except AnalysisError:
+        depth = None          # the rule consults no bracket depth: the expectations below then fail for depth > 0 or depth 0
+    if rm.rule.func is None:
+        chk.bad(R1, 't_%s' % NL, where, 'the separator rule is a plain string rule: line breaks inside brackets separate statements')
+        return
     tparam = ('param', rm.rule.func.args.args[0].arg)
     for text in sorted(texts or []):
         for d in (0, 1, 3):
@@ -79,7 +85,7 @@ def check(chk: Check) -> None:
         if r.texts is None or len(r.texts) != 1:
             continue
         tx = next(iter(r.texts))
-        if tx in OPEN or tx in OPEN.values():
+        if (tx in OPEN or tx in OPEN.values()) and depth is not None:
             if r.rule.func is None:
                 chk.bad(R1, 't_%s (bracket)' % n, lexrel, 'bracket %r is a plain string rule: the depth counter is not maintained' % tx)
                 continue
